@@ -36,6 +36,16 @@ CLAIMED = {
    note=TRUST + 'Assumed contracts: evaluate_likelihood increments n_like by the number of points (body: C03), abstract Bound API returns points in the cube (C07). '
         'time() is a fresh real per call. n_eff is modelled as a deterministic function of the three arrays it reads.',
    tech='contract-based deductive verification: loop invariants + per-iteration step contracts, z3', ref='7 C10'),
+ 'C11': dict(
+   text='Deductive effect (frame) proof on the real bodies: n_eff, log_z, eta, f_live, log_v_live, evidence(), effective_sample_size(), asymptotic_sampling_efficiency() and the '
+        'discard_exploration getter modify no field of the sampler, no bound sampling state and draw nothing from the generator (frame over all fields + ghost state; posterior(): C14, '
+        'shell_association: C01); write() and write_shell_update() leave the sampler object untouched (they only talk to the file); NautilusPool.map returns the ordered-map primitive; '
+        'syntactic obligations over the whole package AST: no global numpy.random, wall clock only in the run() timeout guard, estimators/generators explicitly seeded, every bound '
+        'constructor receives the shared generator, `if verbose:` blocks only print.',
+   note=TRUST + 'h5py / pathlib objects are effect-free sinks (they hold no reference to the sampler); Pool.map / dask gather(map) ordered and BLAS/sklearn deterministic are assumed contracts '
+        'of dependencies; print_status and shell_bound_occupation are outside the subset: bounded runtime interleaving check only. The composition to "bit-identical runs" is the '
+        'determinism argument of DESIGN.md (not machine-checked).',
+   tech='contract-based deductive verification of frame conditions + syntactic effect obligations', ref='7 C11'),
  'C12': dict(
    text='Deductive proof: explored is only ever set to True (loop step + post), in an explored pre-state one iteration of run() leaves the bound list identical, keeps every '
         'stored row as a prefix (append-only for points and log_l) and leaves the exploration snapshot arrays untouched; after the end of exploration every shell holds at least one '
